@@ -56,6 +56,7 @@ def gen_case(r, idx):
     # plan + store (build)
     c["plan"] = [(r.choice(tomlw.RND_STRINGS), None if r.random() < 0.3 else tomlw.rnd_table(r, 1)) for _ in range(r.choice([0, 1, 2, 4]))]
     c["store"] = r.choice(["absent", "absent", "valid", "valid", "valid-empty", "bad-utf8", "directory", "malformed", "no-metadata-key"])
+    c["plan_defect"] = r.choice([None] * 8 + ["entry-unknown-key", "entry-unknown-table", "root-unknown-key", "entry-name-missing", "store-unknown-key"])
     c["store_md"] = tomlw.rnd_table(r, 0)
     return c
 
@@ -104,12 +105,22 @@ def materialise(lay, c):
             if md is not None:
                 e["metadata"] = md
             entries.append(e)
-        f.write(tomlw.selfcheck({"entries": entries}) if entries else "")
+        text = tomlw.selfcheck({"entries": entries}) if entries else ""
+        d = c.get("plan_defect")
+        if d == "entry-unknown-key":
+            text += '\n[[entries]]\nname = "extra"\nversion = "22.x"\n'
+        elif d == "entry-unknown-table":
+            text += '\n[[entries]]\nname = "extra"\n[entries.metadat]\nk = "v"\n'
+        elif d == "root-unknown-key":
+            text = 'unknown_root_key = 1\n' + text
+        elif d == "entry-name-missing":
+            text += '\n[[entries]]\n[entries.metadata]\nk = "v"\n'
+        f.write(text)
     sp = os.path.join(lay.layers, "store.toml")
     if c["phase"] == "build":
         if c["store"] == "valid":
             with open(sp, "w") as f:
-                f.write(tomlw.selfcheck({"metadata": c["store_md"]}))
+                f.write(tomlw.selfcheck({"metadata": c["store_md"]}) + ("\n[metadatas]\nx = 1\n" if c.get("plan_defect") == "store-unknown-key" else ""))
         elif c["store"] == "valid-empty":
             with open(sp, "w") as f:
                 f.write("[metadata]\n")
@@ -179,6 +190,8 @@ def run_case(base, c, sh):
                 return
             c = dict(c)
             c["store"] = "valid-empty"
+        if c["phase"] == "build" and c.get("plan_defect") and (c["plan_defect"] != "store-unknown-key" or c["store"] == "valid"):
+            must_fail.append("the buildpack plan / store has a defect the context cannot represent (%s)" % c["plan_defect"])
         if c["phase"] == "build" and c["store"] in ("bad-utf8", "directory", "malformed"):
             must_fail.append("store.toml is %s" % c["store"])
         what = "%s in %r (env entries %r, store %s)" % (c["phase"], c["dirname"], [(n, k) for n, k, _ in c["env"]], c["store"])
